@@ -655,3 +655,206 @@ Proof.
   intros H. unfold d_first. rewrite (chain_first _ _ _ _ (ring_chain _ _ _ (rep_ring _ _ H))).
   unfold ids. now destruct (nodes c).
 Qed.
+
+(* ------------------------------------------------------------------ *)
+(* the API functions: NewLRU, one call, histories *)
+
+(* remove() never writes a key or a value *)
+Lemma list_remove_kv d x y :
+  c_key (rd (d_heap (fst (d_list_remove d x))) y) = c_key (rd (d_heap d) y) /\
+  c_val (rd (d_heap (fst (d_list_remove d x))) y) = c_val (rd (d_heap d) y).
+Proof.
+  unfold d_list_remove. destruct (negb (x =? d_root d)); cbn [fst d_heap]; [|auto].
+  now rewrite ky_set_next, ky_set_prev, vl_set_next, vl_set_prev.
+Qed.
+
+Lemma rep_new_list h sz :
+  Rep (mkD (fst (new_list h)) (snd (new_list h)) 0 [] sz) (mkLru [] 0 [] sz (S (length h))).
+Proof.
+  unfold new_list. cbn [fst snd].
+  constructor; cbn [d_heap d_root d_len d_items d_size nodes llen items size fresh]; try reflexivity.
+  - unfold ids. cbn [nodes map]. constructor.
+    + cbn [chain]. rewrite rd_app_new. cbn. auto.
+    + constructor; [intros []|constructor].
+    + intros y [<-|[]]. rewrite app_length. cbn. lia.
+  - intros n [].
+  - rewrite app_length. cbn. lia.
+Qed.
+
+Lemma rep_new cap d c : d_new cap = Ok d -> new_lru cap = Ok c -> Rep d c.
+Proof.
+  unfold d_new, new_lru. destruct (cap <=? 0)%Z; [discriminate|].
+  intros Hd Hc. injection Hc as <-.
+  pose proof (rep_new_list [] cap) as H. destruct (new_list []) as [h r]. injection Hd as <-. exact H.
+Qed.
+
+Lemma rep_flush d c : Rep d c -> Rep (fst (d_flush d)) (fst (flush c)) /\ snd (d_flush d) = snd (flush c).
+Proof.
+  intros H. unfold d_flush, flush.
+  pose proof (rep_new_list (d_heap d) (d_size d)) as HN.
+  destruct (new_list (d_heap d)) as [h r]. cbn [fst snd] in *.
+  rewrite (rep_fresh _ _ H), <- (rep_size _ _ H). auto.
+Qed.
+
+(* RemoveOldest (also the eviction inside Add, where the capacity bound is
+   exceeded for a moment: no invariant of Layer 1 is needed) *)
+Lemma rep_remove_oldest d c :
+  Rep d c ->
+  Rep (fst (d_remove_oldest d)) (fst (remove_oldest c)) /\ snd (d_remove_oldest d) = snd (remove_oldest c).
+Proof.
+  intros H. unfold d_remove_oldest, remove_oldest, l_last. rewrite (rep_last _ _ H).
+  destruct (last_opt (nodes c)) as [item|] eqn:Hl.
+  - pose proof (l_last_in _ _ Hl) as Hin.
+    destruct (Nat.eqb_spec (n_id item) (d_root d)) as [E|_].
+    { exfalso. now apply (rep_root_ne _ _ _ H Hin). }
+    cbn [negb]. destruct (rep_kv _ _ H item Hin) as [K V]. rewrite K, V.
+    rewrite (rep_items _ _ H).
+    pose proof (rep_with_items d c (m_del (n_key item) (items c)) H) as H1.
+    set (d1 := d_with_items d _) in *. set (c1 := with_items c _) in *.
+    unfold d_remove_last, l_remove_last, l_last.
+    assert (El : last_opt (nodes c1) = Some item) by exact Hl. rewrite El.
+    rewrite (rep_last _ _ H1), El.
+    destruct (rep_list_remove d1 c1 item H1 Hin) as [Eb HR].
+    destruct (d_list_remove d1 (n_id item)) as [d2 b]. cbn [fst snd] in *. subst b. auto.
+  - rewrite Nat.eqb_refl. cbn [negb fst snd]. auto.
+Qed.
+
+(* one call: the pointer code does what Layer 1 does *)
+Lemma step_rep o d c :
+  Inv0 c -> Rep d c ->
+  Rep (fst (d_step o d)) (fst (step o c)) /\ snd (d_step o d) = snd (step o c).
+Proof.
+  intros HI H. destruct o as [k v|k| | |k| | |]; cbn [d_step step].
+  - (* Add *)
+    unfold d_add, add. rewrite (rep_items _ _ H).
+    destruct (m_get k (items c)) as [i|] eqn:Hg.
+    + destruct (items_hit c k i HI Hg) as (n & Hn & E1 & E2 & Hf & _). subst i.
+      unfold move_front. rewrite Hf. cbn [fst snd]. split; [|reflexivity].
+      pose proof (rep_move_front d c n H Hn) as H1.
+      set (d1 := d_move_front d (n_id n)) in *. set (c1 := with_nodes c _) in *.
+      apply (rep_set_value d1 c1 (n_id n) v H1). exists n. split; [now left|reflexivity].
+    + destruct (rep_add_front d c k v H) as [Ea H1].
+      destruct (d_add_front d k v) as [d1 item]. cbn [fst snd] in Ea, H1. subst item.
+      set (c1 := mkLru _ _ _ _ _) in *.
+      rewrite (rep_items _ _ H1).
+      pose proof (rep_with_items d1 c1 (m_set k (fresh c) (items c1)) H1) as H2.
+      set (d2 := d_with_items d1 _) in *. set (c2 := with_items c1 _) in *.
+      unfold d_count, count. rewrite (rep_len _ _ H2), (rep_size _ _ H2).
+      destruct (llen c2 >? size c2)%Z; [now apply rep_remove_oldest|auto].
+  - (* Get *)
+    unfold d_get, get. rewrite (rep_items _ _ H).
+    destruct (m_get k (items c)) as [i|] eqn:Hg; [|auto].
+    destruct (items_hit c k i HI Hg) as (n & Hn & E1 & E2 & Hf & _). subst i.
+    unfold move_front. rewrite Hf.
+    pose proof (rep_move_front d c n H Hn) as H1.
+    set (d1 := d_move_front d (n_id n)) in *. set (c1 := with_nodes c _) in *.
+    assert (Hf1 : find_nd (n_id n) (nodes c1) = Some n).
+    { unfold c1, find_nd. cbn [with_nodes nodes find]. now rewrite Nat.eqb_refl. }
+    rewrite Hf1. cbn [fst snd]. split; [exact H1|].
+    destruct (rep_kv _ _ H1 n) as [_ V]; [now left|]. now rewrite V.
+  - (* GetOldest *)
+    unfold d_get_oldest, get_oldest, l_last. rewrite (rep_last _ _ H).
+    destruct (last_opt (nodes c)) as [item|] eqn:Hl.
+    + pose proof (l_last_in _ _ Hl) as Hin.
+      destruct (Nat.eqb_spec (n_id item) (d_root d)) as [E|_].
+      { exfalso. now apply (rep_root_ne _ _ _ H Hin). }
+      cbn [negb]. unfold move_front. rewrite (find_nd_in item _ (inv_ids _ HI) Hin).
+      pose proof (rep_move_front d c item H Hin) as H1.
+      set (d1 := d_move_front d (n_id item)) in *. set (c1 := with_nodes c _) in *.
+      cbn [fst snd]. split; [exact H1|].
+      destruct (rep_kv _ _ H1 item) as [K V]; [now left|]. now rewrite K, V.
+    + rewrite Nat.eqb_refl. cbn [negb fst snd]. auto.
+  - (* GetYoungest *)
+    unfold d_get_youngest, get_youngest, l_first. rewrite (rep_first _ _ H).
+    destruct (nodes c) as [|item ns] eqn:En.
+    + rewrite Nat.eqb_refl. cbn [negb fst snd]. auto.
+    + assert (Hin : In item (nodes c)) by (rewrite En; now left).
+      destruct (Nat.eqb_spec (n_id item) (d_root d)) as [E|_].
+      { exfalso. now apply (rep_root_ne _ _ _ H Hin). }
+      cbn [negb fst snd]. split; [exact H|].
+      destruct (rep_kv _ _ H item Hin) as [K V]. now rewrite K, V.
+  - (* Remove *)
+    unfold d_remove, remove. rewrite (rep_items _ _ H).
+    destruct (m_get k (items c)) as [i|] eqn:Hg; [|auto].
+    destruct (items_hit c k i HI Hg) as (n & Hn & E1 & E2 & Hf & _). subst i. rewrite Hf.
+    destruct (rep_kv _ _ H n Hn) as [K V]. rewrite K.
+    pose proof (rep_with_items d c (m_del (n_key n) (items c)) H) as H1.
+    set (d1 := d_with_items d _) in *. set (c1 := with_items c _) in *.
+    destruct (rep_list_remove d1 c1 n H1 Hn) as [_ HR].
+    destruct (list_remove_kv d1 (n_id n) (n_id n)) as [_ V2].
+    destruct (d_list_remove d1 (n_id n)) as [d2 b]. cbn [fst snd] in *.
+    split; [exact HR|]. rewrite V2. unfold d1. cbn [d_with_items d_heap]. now rewrite V.
+  - (* RemoveOldest *)
+    now apply rep_remove_oldest.
+  - (* RemoveYoungest *)
+    unfold d_remove_youngest, remove_youngest, l_first. rewrite (rep_first _ _ H).
+    destruct (nodes c) as [|item ns] eqn:En.
+    + rewrite Nat.eqb_refl. cbn [negb fst snd]. auto.
+    + assert (Hin : In item (nodes c)) by (rewrite En; now left).
+      destruct (Nat.eqb_spec (n_id item) (d_root d)) as [E|_].
+      { exfalso. now apply (rep_root_ne _ _ _ H Hin). }
+      cbn [negb]. destruct (rep_kv _ _ H item Hin) as [K V]. rewrite K, (rep_items _ _ H).
+      pose proof (rep_with_items d c (m_del (n_key item) (items c)) H) as H1.
+      set (d1 := d_with_items d _) in *. set (c1 := with_items c _) in *.
+      assert (Hin1 : In item (nodes c1)) by exact Hin.
+      destruct (rep_list_remove d1 c1 item H1 Hin1) as [Eb HR].
+      destruct (list_remove_kv d1 (n_id item) (n_id item)) as [K2 V2].
+      destruct (d_list_remove d1 (n_id item)) as [d2 b]. cbn [fst snd] in *. subst b.
+      split; [exact HR|]. rewrite K2, V2. unfold d1. cbn [d_with_items d_heap]. now rewrite K, V.
+  - (* Flush *)
+    now apply rep_flush.
+Qed.
+
+Lemma count_rep d c : Rep d c -> d_count d = count c.
+Proof. intros H. apply (rep_len _ _ H). Qed.
+
+(* lifted to histories: same observable run, and the final states correspond *)
+Lemma run_rep ops : forall d c, Inv c -> Rep d c ->
+  run d_step d_count ops d = run step count ops c /\ Rep (final d_step ops d) (final step ops c).
+Proof.
+  induction ops as [|o ops IH]; intros d c HI H; cbn [run final]; [auto|].
+  destruct (step_rep o d c (proj1 HI) H) as [H1 Eo].
+  pose proof (inv_step o c HI) as HI1.
+  destruct (IH _ _ HI1 H1) as [Er Hf].
+  destruct (d_step o d) as [d' r]. destruct (step o c) as [c' r']. cbn [fst snd] in *.
+  subst r'. rewrite (count_rep _ _ H1), Er. auto.
+Qed.
+
+Lemma dll_refines_lru cap d c ops :
+  d_new cap = Ok d -> new_lru cap = Ok c -> run_dll d ops = run_lru c ops.
+Proof.
+  intros Hd Hc. unfold run_dll, run_lru.
+  apply run_rep; [apply (inv_new _ _ Hc)|now apply (rep_new cap)].
+Qed.
+
+Lemma dll_rep_final cap d c ops :
+  d_new cap = Ok d -> new_lru cap = Ok c -> Rep (final d_step ops d) (final step ops c).
+Proof.
+  intros Hd Hc. apply run_rep; [apply (inv_new _ _ Hc)|now apply (rep_new cap)].
+Qed.
+
+Lemma d_new_lru cap d : d_new cap = Ok d -> exists c, new_lru cap = Ok c.
+Proof. unfold d_new, new_lru. destruct (cap <=? 0)%Z; [discriminate|eauto]. Qed.
+
+Lemma dll_refines_spec cap d ops : d_new cap = Ok d -> run_dll d ops = run_spec cap ops.
+Proof.
+  intros Hd. destruct (d_new_lru _ _ Hd) as [c Hc].
+  rewrite (dll_refines_lru _ _ _ ops Hd Hc). now apply lru_refines_spec.
+Qed.
+
+Lemma dll_trace_ok cap d ops :
+  d_new cap = Ok d -> trace_ok cap 0 l_empty (trace_of ops (run_dll d ops)).
+Proof.
+  intros Hd. destruct (d_new_lru _ _ Hd) as [c Hc].
+  rewrite (dll_refines_lru _ _ _ ops Hd Hc). now apply lru_trace_ok.
+Qed.
+
+(* the code as found (RemoveYoungest calling removeLast) at the pointer level:
+   after Add 1, 2, 3 and RemoveYoungest the key 3 is gone from the map but its
+   cell is still first in the ring, and 1 was unlinked instead *)
+Lemma dll_unrepaired_diverges :
+  exists d ops, d_new 3 = Ok d /\ run d_step_unrepaired d_count ops d <> run_spec 3 ops.
+Proof.
+  exists (mkD [mkCell 0 0 0 0] 0 0%Z [] 3%Z), [Add 1 11; Add 2 12; Add 3 13; RemoveYoungest; GetYoungest]%Z.
+  split; [reflexivity|]. vm_compute. discriminate.
+Qed.
